@@ -66,6 +66,8 @@ def compare(d, m):
     if m['error'] is not None:
         diffs.append(('I1', 'model rejects the grammar (%s) but the implementation built it' % ' '.join(m['error'])))
         return diffs, v, None
+    if m.get('wf') is False:
+        diffs.append(('I1', 'the grammar object does not meet the well-formedness check under which the back-end theorems are stated (WfGrammar.wf_gi)'))
     if v['nullable'] != m['nullable']:
         diffs.append(('I2', 'nullable symbols: impl %s model %s' % (v['nullable'], m['nullable'])))
     mp = renumber(v['lr0'], m['lr0'])
